@@ -47,7 +47,11 @@ def history_in_process(res, drv, n, rng):
             if i in (7, 151, 152):
                 fw = rng.randbytes([(1 << 20) + 1, 2621440 + 7, 1 << 20][i % 3])        # images of real size in between: the history is one history
             draws.clear()
-            enc = mod.Encryptor()
+            # one Encryptor object serves several images (a packaging script calls the factory once), then a new one: three calls in four reuse the object (C14-q)
+            if i % 4 == 0 or i < 2:
+                enc = mod.suit_encryptor_factory() if i % 8 == 0 else mod.Encryptor()
+            else:
+                res.count("in_process_calls_on_a_reused_encryptor")
             content, tag, info, digest, ln = enc.encrypt_and_generate(fw, "aes_key", 0x7FFFFFE0, aes_keys_dir(), SuitDigestAlgorithms("sha-256"),
                                                                       SuitKWAlgorithms("direct"), kms)
             this_call = b"".join(draws)
